@@ -230,14 +230,14 @@ def BrowseGone (ty : BList) : State → Prop :=
   SInv (fun q => q.1 ≠ ty) (fun _ => True) (fun k => ∀ x, k = some x → ¬ (x.1 = 0 ∧ x.2.1 = ty))
 
 theorem no_ptr_query (ty : BList) (x : State) (cmds : List Command) (rcs : List RClass) (known : List Record)
-    (hq : ∀ q ∈ x.queriers, q.1 ≠ ty) (hc : ∀ ch co, Command.browse ty ch co ∉ cmds)
+    (hq : ∀ q ∈ x.queriers, q.1 ∉ x.cacheOnly → q.1 ≠ ty) (hc : ∀ ch co, Command.browse ty ch co ∉ cmds)
     (hr : ∀ ch, RClass.browse ty ch ∉ rcs) : ¬ Origin x cmds rcs (.query [(ty, 12)] known) := by
   intro h
   generalize ho : Out.query [(ty, 12)] known = o at h
   cases h with
-  | ptrQuerier q known' h1 =>
+  | ptrQuerier q known' h1 h1a =>
     simp only [Out.query.injEq, List.cons.injEq, Prod.mk.injEq, and_true] at ho
-    exact hq q h1 ho.1.symm
+    exact hq q h1 h1a ho.1.symm
   | ptrRerun ty' ch known' h1 =>
     simp only [Out.query.injEq, List.cons.injEq, Prod.mk.injEq, and_true] at ho
     exact hr ch (ho.1 ▸ h1)
@@ -289,7 +289,8 @@ theorem browseGone_tail (ty : BList) (x : State) (now : Nat) (post : List Comman
         simp)
   refine ⟨?_, ht.2.1, ht.2.2⟩
   intro known hk
-  refine no_ptr_query ty x post (midClasses x now post) known hf.queriers hc ?_ (origin_tail x now post _ hk)
+  refine no_ptr_query ty x post (midClasses x now post) known (fun q hq _ => hf.queriers q hq) hc ?_
+    (origin_tail x now post _ hk)
   intro ch hm
   simp only [midClasses, List.mem_map] at hm
   obtain ⟨r, hr, hcl⟩ := hm
@@ -307,12 +308,138 @@ theorem browseGone_iter (ty : BList) (s : State) (now : Nat) (pkts : List Packet
   rw [(iter_tail s now pkts cmds).2] at he
   simp only [List.mem_append] at he
   rcases he with (he | he) | he
-  · exact no_ptr_query ty s [] [] known hf.queriers (fun _ _ h => by cases h) (fun _ h => by cases h)
+  · exact no_ptr_query ty s [] [] known (fun q hq _ => hf.queriers q hq) (fun _ _ h => by cases h) (fun _ h => by cases h)
       (origin_ingress [] [] now pkts s _ he)
   · refine no_ptr_query ty (popTimers (ingress s now pkts).1 now) [] [] known ?_ (fun _ _ h => by cases h)
       (fun _ h => by cases h) (origin_runTimeouts _ [] [] now _ he)
-    intro q hq
+    intro q hq _
     exact hf.queriers q (by simpa [popTimers] using hq)
+  · exact h2 known he
+
+/-! ### a cache-only browse: no PTR query for its type (repair of D23) -/
+
+/-- `ty` is in the set of cache-only types and no retransmission of a browse of `ty` is queued:
+    the way `browse_cache(ty)` leaves the state -/
+def CacheOnlyQuiet (ty : BList) (s : State) : Prop :=
+  ty ∈ s.cacheOnly ∧
+  SInv (fun _ => True) (fun _ => True) (fun k => ∀ x, k = some x → ¬ (x.1 = 0 ∧ x.2.1 = ty)) s
+
+/-- a command that is neither a browse nor a stop of `ty` keeps `ty` in the cache-only set -/
+theorem cacheOnly_execCommand_keep (ty : BList) (s : State) (now : Nat) (c : Command)
+    (hb : ∀ ch co, c ≠ .browse ty ch co) (hs : c ≠ .stopBrowse ty) (h : ty ∈ s.cacheOnly) :
+    ty ∈ (execCommand s now c).1.cacheOnly := by
+  cases c with
+  | browse ty' ch co =>
+    have e2 : (execCommand s now (.browse ty' ch co)).1.cacheOnly = _ := execBrowse_new_cacheOnly s now ty' 1 co ch
+    rw [e2]
+    have hne : ty ≠ ty' := fun e => hb ch co (by rw [e])
+    cases co
+    · simp only [Bool.false_eq_true, if_false, List.mem_filter]
+      exact ⟨h, by simpa using hne⟩
+    · simp only [if_true]
+      exact (mem_insertSet _ _ _).mpr (Or.inl h)
+  | stopBrowse ty' =>
+    have hne : ty ≠ ty' := fun e => hs (by rw [e])
+    simp only [execCommand, execStopBrowse]
+    split
+    · exact h
+    · simp only [List.mem_filter]
+      exact ⟨h, by simpa using hne⟩
+  | resolveHost h0 ch t =>
+    rw [(execCommand_browses_other s now (.resolveHost h0 ch t) (fun _ _ _ e => by cases e) (fun _ e => by cases e)).2]
+    exact h
+  | stopResolve h0 =>
+    rw [(execCommand_browses_other s now (.stopResolve h0) (fun _ _ _ e => by cases e) (fun _ e => by cases e)).2]
+    exact h
+  | ipInterval ms => exact h
+  | verify inst t =>
+    rw [(execCommand_browses_other s now (.verify inst t) (fun _ _ _ e => by cases e) (fun _ e => by cases e)).2]
+    exact h
+  | metrics ch => exact h
+  | acceptUnsolicited on => exact h
+
+theorem cacheOnly_runCommands_keep (ty : BList) (now : Nat) : ∀ (l : List Command) (s : State),
+    (∀ ch co, Command.browse ty ch co ∉ l) → Command.stopBrowse ty ∉ l → ty ∈ s.cacheOnly →
+    ty ∈ (runCommands s now l).1.cacheOnly
+  | [], _, _, _, h => h
+  | c :: rest, s, hb, hs, h => by
+    simp only [runCommands]
+    refine cacheOnly_runCommands_keep ty now rest _ (fun ch co hm => hb ch co (List.mem_cons_of_mem _ hm))
+      (fun hm => hs (List.mem_cons_of_mem _ hm)) ?_
+    exact cacheOnly_execCommand_keep ty s now c (fun ch co e => hb ch co (e ▸ List.mem_cons_self))
+      (fun e => hs (e ▸ List.mem_cons_self)) h
+
+/-- after the commands nothing touches the cache-only set -/
+theorem tail_cacheOnly (x : State) (now : Nat) (post : List Command) :
+    (runIpCheck (tailState x now post) now).cacheOnly = (runCommands x now post).1.cacheOnly := by
+  have e0 : (runIpCheck (tailState x now post) now).cacheOnly = (tailState x now post).cacheOnly := by
+    rcases runIpCheck_cases (tailState x now post) now with ⟨he, _⟩ | ⟨he, _⟩ | ⟨he, _⟩ <;> rw [he]
+  rw [e0]
+  unfold tailState evictAddrPhase
+  rw [evictAddrHosts_cacheOnly]
+  show (rerunPhase (runCommands x now post).1 now).1.cacheOnly = _
+  exact runReruns_cacheOnly now _ _ _ _
+
+theorem preCommands_cacheOnly (s : State) (now : Nat) (pkts : List Packet) : (preCommands s now pkts).cacheOnly = s.cacheOnly := by
+  show (ingress s now pkts).1.cacheOnly = _
+  exact ingress_cacheOnly now pkts s
+
+/-- **no PTR query for a cache-only type, tail of an iteration**: from a state in which `ty` is
+    cache-only with no browse retransmission queued, with commands that neither browse nor stop
+    `ty`, the rest of the iteration asks no PTR question for `ty` and leaves `ty` as it was -/
+theorem cacheOnlyQuiet_tail (ty : BList) (x : State) (now : Nat) (post : List Command) (hf : CacheOnlyQuiet ty x)
+    (hD : ∀ r ∈ x.reruns, DelayOk r) (hc : ∀ ch co, Command.browse ty ch co ∉ post) (hs : Command.stopBrowse ty ∉ post) :
+    (∀ known, Out.query [(ty, 12)] known ∉ tailOuts x now post) ∧
+    CacheOnlyQuiet ty (runIpCheck (tailState x now post) now) ∧
+    (∀ r ∈ (runIpCheck (tailState x now post) now).reruns, DelayOk r) := by
+  have ht := SInv.tail hf.2 now post hD
+    (fun _ _ _ _ => trivial)
+    (fun _ _ _ _ _ => trivial)
+    (fun x hx => by cases hx)
+    (by
+      intro c hcm y hy
+      cases c <;> simp [ckey] at hy
+      · rename_i ty' ch' co
+        subst hy
+        intro he
+        exact hc ch' co (he.2 ▸ hcm)
+      · subst hy
+        simp)
+  refine ⟨?_, ⟨?_, ht.2.1⟩, ht.2.2⟩
+  · intro known hk
+    refine no_ptr_query ty x post (midClasses x now post) known (fun q _ hqa hty => hqa (hty ▸ hf.1)) hc ?_
+      (origin_tail x now post _ hk)
+    intro ch hm
+    simp only [midClasses, List.mem_map] at hm
+    obtain ⟨r, hr, hcl⟩ := hm
+    exact ht.1.reruns r hr _ (rkey_of_class_browse hcl) ⟨rfl, rfl⟩
+  · rw [tail_cacheOnly]
+    exact cacheOnly_runCommands_keep ty now post x hc hs hf.1
+
+/-- **no PTR query for a cache-only type, whole iteration** -/
+theorem cacheOnlyQuiet_iter (ty : BList) (s : State) (now : Nat) (pkts : List Packet) (cmds : List Command)
+    (hf : CacheOnlyQuiet ty s) (hD : ∀ r ∈ s.reruns, DelayOk r) (hc : ∀ ch co, Command.browse ty ch co ∉ cmds)
+    (hs : Command.stopBrowse ty ∉ cmds) :
+    (∀ known, Out.query [(ty, 12)] known ∉ (Client.iter s now pkts cmds).2) ∧
+    CacheOnlyQuiet ty (Client.iter s now pkts cmds).1 ∧
+    (∀ r ∈ (Client.iter s now pkts cmds).1.reruns, DelayOk r) := by
+  obtain ⟨h1, hD1⟩ := SInv.preCommands hf.2 now pkts hD (fun x hx => by cases hx)
+  have hf1 : CacheOnlyQuiet ty (preCommands s now pkts) := ⟨by rw [preCommands_cacheOnly]; exact hf.1, h1⟩
+  obtain ⟨h2, h3, h4⟩ := cacheOnlyQuiet_tail ty _ now cmds hf1 hD1 hc hs
+  rw [(iter_tail s now pkts cmds).1]
+  refine ⟨?_, h3, h4⟩
+  intro known he
+  rw [(iter_tail s now pkts cmds).2] at he
+  simp only [List.mem_append] at he
+  rcases he with (he | he) | he
+  · exact no_ptr_query ty s [] [] known (fun q _ hqa hty => hqa (hty ▸ hf.1)) (fun _ _ h => by cases h)
+      (fun _ h => by cases h) (origin_ingress [] [] now pkts s _ he)
+  · refine no_ptr_query ty (popTimers (ingress s now pkts).1 now) [] [] known ?_ (fun _ _ h => by cases h)
+      (fun _ h => by cases h) (origin_runTimeouts _ [] [] now _ he)
+    intro q _ hqa hty
+    refine hqa ?_
+    rw [hty]
+    simpa [popTimers] using hf.1
   · exact h2 known he
 
 /-! ### a hostname search that is gone: no address query for its name -/
@@ -702,5 +829,59 @@ theorem stopResolve_spec (s : State) (host : BList) (ch : Nat) (dl : Option Nat)
     · intro r hr x hx he
       have h1 := ho.reruns r (List.mem_filter.mp hr).1 x hx he
       exact hgone r hr x hx h1
+
+/-- **`browse_cache(ty)`**: only events on its channel - no query at all -; afterwards `ty` is
+    cache-only with no browse retransmission queued (an earlier `browse(ty)` is replaced, its
+    queued retransmission purged); the re-runs queued are old ones or follow-ups -/
+theorem browseCache_spec (s : State) (now : Nat) (ty : BList) (ch : Nat) :
+    (∀ o ∈ (execCommand s now (.browse ty ch true)).2, ∃ e, o = .event ch e) ∧
+    CacheOnlyQuiet ty (execCommand s now (.browse ty ch true)).1 ∧
+    (∀ r ∈ (execCommand s now (.browse ty ch true)).1.reruns, r ∈ s.reruns ∨ DelayOk r) := by
+  have hst := step_queryCacheForService (now := now) (cmds := []) (KeyOK := fun k => k = none) (OK := fun _ => True)
+    { s with reruns := s.reruns.filter (fun r => !isBrowseOf ty r),
+             queriers := (ty, ch) :: s.queriers.filter (fun q => q.1 != ty),
+             cacheOnly := insertSet s.cacheOnly ty } ty ch trivial rfl
+  have hex : (execCommand s now (.browse ty ch true)).1 =
+      (queryCacheForService
+        { s with reruns := s.reruns.filter (fun r => !isBrowseOf ty r),
+                 queriers := (ty, ch) :: s.queriers.filter (fun q => q.1 != ty),
+                 cacheOnly := insertSet s.cacheOnly ty } now ty ch).1 := by
+    simp only [execCommand, execBrowse, Bool.false_eq_true, if_false, if_true]
+  refine ⟨?_, ⟨?_, fun _ _ => trivial, fun _ _ => trivial, ?_⟩, ?_⟩
+  · intro o ho
+    simp only [execCommand, execBrowse, Bool.false_eq_true, if_false, if_true, List.mem_append, List.mem_singleton] at ho
+    rcases ho with (rfl | ho) | rfl
+    · exact ⟨_, rfl⟩
+    · simp only [queryCacheForService, List.mem_flatMap, List.mem_append, List.mem_singleton] at ho
+      obtain ⟨i, _, ho⟩ := ho
+      rcases ho with rfl | ho
+      · exact ⟨_, rfl⟩
+      · split at ho
+        · simp only [List.mem_singleton] at ho
+          exact ⟨_, ho⟩
+        · cases ho
+    · exact ⟨_, rfl⟩
+  · have e2 : (execCommand s now (.browse ty ch true)).1.cacheOnly = _ := execBrowse_new_cacheOnly s now ty 1 true ch
+    rw [e2]
+    simp only [if_true]
+    exact (mem_insertSet _ _ _).mpr (Or.inr rfl)
+  · intro r hr x hx he
+    rw [hex] at hr
+    rcases hst.reruns r hr with h | ⟨_, _, _, h⟩
+    · obtain ⟨_, hnb⟩ := List.mem_filter.mp h
+      obtain ⟨n, c⟩ := r
+      cases c <;> simp [rkey] at hx
+      · subst hx
+        simp only at he
+        simp [isBrowseOf, he.2] at hnb
+      · subst hx
+        simp at he
+    · rw [h] at hx
+      cases hx
+  · intro r hr
+    rw [hex] at hr
+    rcases hst.reruns r hr with h | ⟨_, _, h, _⟩
+    · exact Or.inl (List.mem_filter.mp h).1
+    · exact Or.inr h
 
 end Mdns.Client
